@@ -128,9 +128,17 @@ class Program:
         self.inlined = inline_new_helpers({name: (m.path, m.tree) for name, m in self.modules.items()}, load_known())
         self._canonicalise_tests()
         self.renamed_back = []
+        self.temps_inlined = []
         if not os.environ.get("VK_NO_RENAMEBACK"):
             from . import renameback
-            self.renamed_back = renameback.apply({name: (m.path, m.tree) for name, m in self.modules.items()}, renameback.load_recorded())
+            recorded = renameback.load_recorded()
+            self.renamed_back = renameback.apply({name: (m.path, m.tree) for name, m in self.modules.items()}, recorded)
+            if not os.environ.get("VK_NO_TEMP_INLINING"):
+                from . import inlinetemps
+                self.temps_inlined = inlinetemps.apply({name: (m.path, m.tree) for name, m in self.modules.items()}, recorded)
+                if self.temps_inlined:
+                    # the substituted expressions may complete a spelling the canonicaliser knows
+                    self._canonicalise_tests(only={l.split(":")[0] for l in self.temps_inlined})
         self._index()
         self._canonicalise_calls()
 
@@ -286,10 +294,12 @@ class Program:
                 node.args = new_args
                 node.keywords = [k for k in node.keywords if k.arg in kw]
 
-    def _canonicalise_tests(self):
+    def _canonicalise_tests(self, only=None):
         """See vk/canon.py: comparison / branch / call spelling is normalised in the parsed trees."""
         from .canon import Canon
         for m in self.modules.values():
+            if only is not None and m.path not in only:
+                continue
             m.tree = Canon().visit(m.tree)
             ast.fix_missing_locations(m.tree)
 
